@@ -52,7 +52,7 @@ impl LspProject {
                 return Err(result
                     .1
                     .into_iter()
-                    .map(|err| map_diagnostic(err, self.wrapped.as_ref()))
+                    .map(|err| map_diagnostic(err, &file_id, self.wrapped.as_ref()))
                     .collect());
             }
 
@@ -80,7 +80,7 @@ impl LspProject {
                 Err(diagnostics) => diagnostics
                     .into_iter()
                     .filter(|d| d.file_ids().contains(&file_id))
-                    .map(|d| map_diagnostic(d, self.wrapped.as_ref()))
+                    .map(|d| map_diagnostic(d, &file_id, self.wrapped.as_ref()))
                     .collect(),
             };
         } else {
@@ -292,13 +292,27 @@ impl From<LspTokenType> for Option<SemanticToken> {
     }
 }
 
-/// Convert diagnostic type into the LSP diagnostic type.
+/// Convert diagnostic type into the LSP diagnostic type for the document
+/// having the specified file ID.
 fn map_diagnostic(
     diagnostic: ironplc_dsl::diagnostic::Diagnostic,
+    file_id: &FileId,
     project: &dyn Project,
 ) -> lsp_types::Diagnostic {
     let description = diagnostic.description();
-    let range = map_label(&diagnostic.primary, project);
+    // The position must be in the document that the diagnostic is published
+    // for, so use the label that is in that document. That is the primary
+    // label unless only a secondary label refers to the document.
+    let label = if diagnostic.primary.file_id == *file_id {
+        &diagnostic.primary
+    } else {
+        diagnostic
+            .secondary
+            .iter()
+            .find(|label| label.file_id == *file_id)
+            .unwrap_or(&diagnostic.primary)
+    };
+    let range = map_label(label, project);
 
     let code_description = match Url::parse(
         format!(
@@ -317,7 +331,7 @@ fn map_diagnostic(
         code: Some(NumberOrString::String(diagnostic.code)),
         code_description,
         source: Some("ironplc".into()),
-        message: format!("{}: {} ", description, diagnostic.primary.message),
+        message: format!("{}: {} ", description, label.message),
         related_information: None,
         tags: None,
         data: None,
